@@ -8,22 +8,16 @@
 //! against the write-once-register model of `model.rs`.
 
 pub mod exec;
+pub mod gen;
 pub mod model;
 
 use crate::harness::{Ctx, Failure, Property, Tier, guarded};
 use crate::rng::Rng;
+pub use gen::{Case, GenCfg, gen_case};
 use model::*;
-use serde::{Deserialize, Serialize};
 use serde_json::{Value as J, json};
 use std::io::Write;
 use std::sync::{Arc, Condvar, Mutex};
-
-#[derive(Clone, Debug, Serialize, Deserialize)]
-pub struct Case {
-    pub threads: Vec<Vec<Op>>,
-    /// pick i chooses runnable[schedule[i] % runnable.len()]; exhausted => lowest runnable id
-    pub schedule: Vec<u8>,
-}
 
 // ------------------------------------------------------------------------------------------------
 // child side: the baton
@@ -211,176 +205,6 @@ pub fn failure_of(v: Verdict) -> Failure {
     Failure::new(v.class, format!("C19 {} setting={s} op={}", v.class, v.op_kind), v.detail)
 }
 
-const ALLOC_VALUES: [u64; 14] = [0, 1, 7, 56, 100, 1000, 4096, 65536, 1 << 20, (1 << 20) + 1, 1 << 31, DEFAULT_LIMIT, DEFAULT_LIMIT + 1, u64::MAX];
-
-pub struct GenCfg {
-    /// largest length / count that is materialised with data
-    pub max_data: u64,
-    /// largest declared-only length
-    pub max_declared: u64,
-    pub c_codecs: bool,
-}
-
-pub fn gen_case(rng: &mut Rng, cfg: &GenCfg) -> Case {
-    let mut wr = rng.fork("workload");
-    let mut sr = rng.fork("sched");
-    let nthreads = wr.range(2, 4) as usize;
-    // focus on a few settings so that operations actually meet
-    let mut focus: Vec<Setting> = vec![];
-    let nfocus = *wr.pick(&[1usize, 1, 2, 2, 3]);
-    while focus.len() < nfocus {
-        let s = *wr.pick(&[Setting::Alloc, Setting::Alloc, Setting::Alloc, Setting::Hr, Setting::Name, Setting::Namespace, Setting::EnumSym, Setting::Field, Setting::Cmp]);
-        if !focus.contains(&s) {
-            focus.push(s);
-        }
-    }
-    // first pass: shapes
-    let mut shapes: Vec<Vec<(Setting, bool)>> = vec![];
-    for _ in 0..nthreads {
-        let n = wr.range(1, 3) as usize;
-        shapes.push((0..n).map(|_| (*wr.pick(&focus), wr.chance(9, 20))).collect());
-    }
-    // setter proposals, unique per operation where the domain allows
-    let mut alloc_vals: Vec<u64> = vec![];
-    let mut next_tag = 1u32;
-    let mut tags: Vec<(Setting, u32)> = vec![];
-    let mut threads: Vec<Vec<Op>> = vec![];
-    for sh in &shapes {
-        let mut ops = vec![];
-        for (s, is_set) in sh {
-            if *is_set {
-                ops.push(match s {
-                    Setting::Alloc => {
-                        let mut v = *wr.pick(&ALLOC_VALUES);
-                        let mut guard = 0;
-                        while alloc_vals.contains(&v) && guard < 20 {
-                            v = *wr.pick(&ALLOC_VALUES);
-                            guard += 1;
-                        }
-                        alloc_vals.push(v);
-                        Op::SetAlloc(v)
-                    }
-                    Setting::Hr => Op::SetHr(wr.chance(2, 3)),
-                    Setting::Cmp => {
-                        next_tag += 1;
-                        tags.push((*s, next_tag));
-                        Op::SetCmp { tag: next_tag }
-                    }
-                    which => {
-                        next_tag += 1;
-                        tags.push((*which, next_tag));
-                        Op::SetValidator { which: *which, tag: next_tag }
-                    }
-                });
-            } else {
-                // placeholder, filled in the second pass when all proposals are known
-                ops.push(Op::UseCmp { tag: u32::MAX - (*s as u32) });
-            }
-        }
-        threads.push(ops);
-    }
-    let sizes = exec::sizes();
-    for (ti, sh) in shapes.iter().enumerate() {
-        for (oi, (s, is_set)) in sh.iter().enumerate() {
-            if *is_set {
-                continue;
-            }
-            threads[ti][oi] = match s {
-                Setting::Alloc => gen_use_alloc(&mut wr, &alloc_vals, &sizes, cfg),
-                Setting::Hr => Op::UseHr {
-                    path: *wr.pick(&[
-                        HrPath::ToValue,
-                        HrPath::FromValue,
-                        HrPath::DatumWriterSer,
-                        HrPath::DatumReaderDeser,
-                        HrPath::ContainerWriterSer,
-                        HrPath::ContainerReaderDeser,
-                        HrPath::SingleWriterSer,
-                        HrPath::SingleReaderDeser,
-                    ]),
-                },
-                Setting::Cmp => {
-                    let mine: Vec<u32> = tags.iter().filter(|(w, _)| *w == Setting::Cmp).map(|(_, t)| *t).collect();
-                    let tag = if mine.is_empty() || wr.chance(1, 5) { 999 } else { *wr.pick(&mine) };
-                    Op::UseCmp { tag }
-                }
-                which => {
-                    let mine: Vec<u32> = tags.iter().filter(|(w, _)| w == which).map(|(_, t)| *t).collect();
-                    let tag = if mine.is_empty() || wr.chance(1, 5) { 999 } else { *wr.pick(&mine) };
-                    Op::UseValidator { which: *which, tag }
-                }
-            };
-        }
-    }
-    let total: usize = threads.iter().map(|t| t.len()).sum();
-    let schedule = match sr.below(6) {
-        0 => vec![0u8; total],
-        _ => (0..total).map(|_| sr.below(256) as u8).collect(),
-    };
-    Case { threads, schedule }
-}
-
-fn gen_use_alloc(wr: &mut Rng, alloc_vals: &[u64], sizes: &Sizes, cfg: &GenCfg) -> Op {
-    let mut cands: Vec<u64> = alloc_vals.to_vec();
-    cands.push(DEFAULT_LIMIT);
-    let mut paths = vec![
-        AllocPath::DatumBytes,
-        AllocPath::DatumString,
-        AllocPath::DatumFixed,
-        AllocPath::DatumArrayNull,
-        AllocPath::DatumMapNull,
-        AllocPath::FromAvroDatumBytes,
-        AllocPath::DeserBytes,
-        AllocPath::DeserString,
-        AllocPath::DeserFixed,
-        AllocPath::DeserArrayNull,
-        AllocPath::DeserMapNull,
-        AllocPath::BlockSize,
-        AllocPath::SingleObjectBytes,
-        AllocPath::Decompress(CodecKind::Deflate),
-        AllocPath::Decompress(CodecKind::Snappy),
-        AllocPath::ContainerCompressed(CodecKind::Deflate),
-        AllocPath::ContainerCompressed(CodecKind::Snappy),
-    ];
-    if cfg.c_codecs {
-        for k in [CodecKind::Zstd, CodecKind::Bzip2, CodecKind::Xz] {
-            paths.push(AllocPath::Decompress(k));
-            paths.push(AllocPath::ContainerCompressed(k));
-        }
-    }
-    let explicit_hr = wr.chance(1, 2);
-    for _ in 0..12 {
-        let path = *wr.pick(&paths);
-        let c = *wr.pick(&cands);
-        let unit = match path {
-            AllocPath::DatumArrayNull => sizes.value,
-            AllocPath::DatumMapNull => sizes.entry,
-            _ => 1,
-        };
-        // the largest n within the limit and its neighbours
-        let edge = c / unit;
-        let n = match wr.below(4) {
-            0 => edge.saturating_sub(1),
-            1 | 2 => edge,
-            _ => edge.saturating_add(1),
-        };
-        let map_like = matches!(path, AllocPath::DatumMapNull | AllocPath::DeserMapNull);
-        let data_cap = if map_like { cfg.max_data / 16 } else { cfg.max_data };
-        if n <= data_cap {
-            return Op::UseAlloc { path, n, with_data: true, explicit_hr };
-        }
-        // the block buffer is filled with zeros eagerly (Vec::resize), the others are lazily zeroed allocations
-        let declared_cap = if path == AllocPath::BlockSize { cfg.max_declared.min(64 << 20) } else { cfg.max_declared };
-        if path.declared_only_ok() && n <= declared_cap {
-            return Op::UseAlloc { path, n, with_data: false, explicit_hr };
-        }
-    }
-    // every candidate was too large to exercise at its edge: a small length that any large limit admits
-    let path = *wr.pick(&paths);
-    let n = *wr.pick(&[0u64, 1, 5, 300]);
-    Op::UseAlloc { path, n, with_data: true, explicit_hr }
-}
-
 impl Property for C19 {
     type Case = Case;
     fn id(&self) -> &'static str {
@@ -417,7 +241,7 @@ impl Property for C19 {
     }
     fn runs(&self, tier: Tier) -> u64 {
         match tier {
-            Tier::Quick => 12_000,
+            Tier::Quick => 6_000,
             Tier::Thorough => 1_500_000,
         }
     }
@@ -436,7 +260,7 @@ impl Property for C19 {
     }
 
     fn generate(&self, rng: &mut Rng, _run: u64, _tier: Tier) -> Option<Case> {
-        Some(gen_case(rng, &GenCfg { max_data: 1 << 20, max_declared: (1 << 32) + 2, c_codecs: true }))
+        Some(gen_case(rng, &GenCfg { max_data: 1 << 20, max_declared: (1 << 32) + 2, c_codecs: true, alloc_values: &gen::ALLOC_VALUES, validators: true }))
     }
 
     fn execute(&self, case: &Case, ctx: &mut Ctx) -> Option<Failure> {
@@ -497,5 +321,154 @@ impl Property for C19 {
 
     fn sample(&self, case: &Case) -> J {
         json!({"threads": case.threads, "schedule": case.schedule})
+    }
+
+    fn second_engine(&self, seed: u64, tier: Tier) -> Option<crate::harness::SecondEngine> {
+        Some(miri_batch(seed, tier))
+    }
+}
+
+// ------------------------------------------------------------------------------------------------
+// Second engine: the same scenarios with free-running threads under Miri's seeded scheduler
+// (`/verif/miri19`). Miri preempts inside library code and std; one (scenario seed, Miri seed)
+// pair is one exactly repeatable execution.
+
+const MIRI_FLAGS: &str = "-Zmiri-preemption-rate=0.05";
+
+struct MiriOut {
+    code: Option<i32>,
+    stdout: String,
+    stderr: String,
+}
+
+fn miri_run(scenario: &str, extra: &[&str], seeds: &str) -> Result<MiriOut, String> {
+    let dir = format!("{}/miri19", crate::harness::verif_dir());
+    let mut cmd = std::process::Command::new("cargo");
+    cmd.current_dir(&dir).args(["+nightly", "miri", "run", "--offline", "--quiet", "--", scenario]).args(extra);
+    cmd.env("MIRIFLAGS", format!("{seeds} {MIRI_FLAGS}")).env("CARGO_NET_OFFLINE", "true");
+    let out = cmd.output().map_err(|e| format!("cannot run cargo miri: {e}"))?;
+    Ok(MiriOut { code: out.status.code(), stdout: String::from_utf8_lossy(&out.stdout).to_string(), stderr: String::from_utf8_lossy(&out.stderr).to_string() })
+}
+
+fn miri_failure(line: &str) -> Option<(Failure, J)> {
+    let j: J = serde_json::from_str(line.strip_prefix("MIRI-VIOLATION ")?).ok()?;
+    let class = j["class"].as_str().unwrap_or("not-write-once").to_string();
+    let f = Failure::new(
+        &class,
+        format!("C19 {class} setting={} op={} engine=miri", j["setting"].as_str().unwrap_or("-"), j["op"].as_str().unwrap_or("?")),
+        j["detail"].as_str().unwrap_or("").to_string(),
+    );
+    Some((f, j))
+}
+
+pub fn miri_batch(seed: u64, tier: Tier) -> crate::harness::SecondEngine {
+    let t0 = std::time::Instant::now();
+    let (nscen, nseeds) = match tier {
+        Tier::Quick => (std::env::var("VERIF_MIRI_SCENARIOS").ok().and_then(|s| s.parse().ok()).unwrap_or(5u64), 16u64),
+        Tier::Thorough => (std::env::var("VERIF_MIRI_SCENARIOS").ok().and_then(|s| s.parse().ok()).unwrap_or(150u64), 64u64),
+    };
+    let mut ok_runs = 0u64;
+    let mut overlaps = 0u64;
+    let mut ops = 0u64;
+    let mut orders = std::collections::BTreeSet::new();
+    let mut violations = vec![];
+    let mut harness_errors = vec![];
+    let mut scenario_seeds = vec![];
+    for i in 0..nscen {
+        let scn = Rng::for_run(seed, "C19-miri-scenario", i).next_u64() % 1_000_000_000;
+        scenario_seeds.push(scn);
+        let extra: Vec<&str> = if i % 3 == 2 { vec!["validators"] } else { vec![] };
+        let out = match miri_run(&scn.to_string(), &extra, &format!("-Zmiri-many-seeds=0..{nseeds}")) {
+            Ok(o) => o,
+            Err(e) => {
+                harness_errors.push(e);
+                break;
+            }
+        };
+        for l in out.stdout.lines() {
+            if let Some(js) = l.strip_prefix("MIRI-OK ") {
+                if let Ok(j) = serde_json::from_str::<J>(js) {
+                    ok_runs += 1;
+                    overlaps += j["overlapping_pairs"].as_u64().unwrap_or(0);
+                    ops += j["ops"].as_u64().unwrap_or(0);
+                    orders.insert(format!("{scn}|{}", j["order"]));
+                }
+            }
+        }
+        if out.code == Some(0) {
+            continue;
+        }
+        // something failed under some Miri seed: name it, then re-execute exactly that pair
+        let failing: Option<u64> = out.stderr.lines().chain(out.stdout.lines()).find_map(|l| l.trim().strip_prefix("FAILING SEED: ").and_then(|n| n.trim().parse().ok()));
+        let Some(ms) = failing else {
+            harness_errors.push(format!("cargo miri failed for scenario {scn} without naming a seed (exit {:?}): {}", out.code, out.stderr.lines().rev().take(6).collect::<Vec<_>>().join(" | ")));
+            continue;
+        };
+        let again = match miri_run(&scn.to_string(), &extra, &format!("-Zmiri-seed={ms}")) {
+            Ok(o) => o,
+            Err(e) => {
+                harness_errors.push(e);
+                continue;
+            }
+        };
+        let doc_base = json!({"property": "C19", "engine": "miri", "seed": seed, "scenario_seed": scn, "scenario_args": extra, "miri_seed": ms, "miri_flags": MIRI_FLAGS, "harness_version": crate::harness::HARNESS_VERSION});
+        if let Some((f, j)) = again.stdout.lines().find_map(miri_failure) {
+            let mut doc = doc_base;
+            doc["violation"] = json!({"class": f.class, "signature": f.signature, "detail": f.detail});
+            doc["case"] = j["case"].clone();
+            doc["history"] = j["history"].clone();
+            violations.push((doc, f));
+        } else if again.code != Some(0) && (again.stderr.contains("Undefined Behavior") || again.stderr.contains("Data race") || again.stderr.contains("deadlock")) {
+            let what = again.stderr.lines().find(|l| l.starts_with("error")).unwrap_or("error").chars().take(200).collect::<String>();
+            let f = Failure::new("undefined-behaviour", "C19 undefined-behaviour engine=miri".to_string(), format!("Miri stopped the execution: {what}"));
+            let mut doc = doc_base;
+            doc["violation"] = json!({"class": f.class, "signature": f.signature, "detail": f.detail});
+            violations.push((doc, f));
+        } else {
+            harness_errors.push(format!("scenario {scn} failed under Miri seed {ms} but the single-seed re-execution did not (exit {:?}): {}", again.code, again.stderr.lines().rev().take(4).collect::<Vec<_>>().join(" | ")));
+        }
+    }
+    let wall = t0.elapsed().as_secs_f64();
+    crate::harness::SecondEngine {
+        evidence: json!({
+            "engine": "miri (cargo +nightly miri run, /verif/miri19): free-running threads, preemption inside library code and std decided by -Zmiri-seed",
+            "scenarios": scenario_seeds.len(), "scenario_seeds": scenario_seeds.iter().take(8).collect::<Vec<_>>(), "miri_seeds_per_scenario": nseeds, "miri_flags": MIRI_FLAGS,
+            "executions_accepted": ok_runs, "operations": ops, "overlapping_operation_pairs": overlaps, "distinct_invocation_orders": orders.len(),
+            "wall_s": wall, "executions_per_hour": if wall > 0.0 { (ok_runs as f64 / wall * 3600.0) as u64 } else { 0 },
+            "real": ["apache-avro (default features + snappy; no C-backed codecs)", "std::sync::OnceLock as interpreted by Miri"], "simulated": ["thread scheduling and weak-memory behaviour (Miri, seeded)"],
+        }),
+        violations,
+        harness_errors,
+    }
+}
+
+/// Replay of a Miri-engine violation: exactly that (scenario, Miri seed) pair.
+pub fn replay_miri(doc: &J, path: &str) -> i32 {
+    let scn = doc["scenario_seed"].as_u64().unwrap_or(0).to_string();
+    let ms = doc["miri_seed"].as_u64().unwrap_or(0);
+    let extra: Vec<String> = doc["scenario_args"].as_array().map(|a| a.iter().filter_map(|x| x.as_str().map(|s| s.to_string())).collect()).unwrap_or_default();
+    let extra_ref: Vec<&str> = extra.iter().map(|s| s.as_str()).collect();
+    match miri_run(&scn, &extra_ref, &format!("-Zmiri-seed={ms}")) {
+        Err(e) => {
+            println!("HARNESS-ERROR {e}");
+            2
+        }
+        Ok(o) => {
+            if let Some((f, _)) = o.stdout.lines().find_map(miri_failure) {
+                println!("VIOLATION property=C19 replay={path}");
+                println!("  class={} signature={} detail={}", f.class, f.signature, f.detail);
+                1
+            } else if o.code == Some(0) {
+                println!("replay {path}: property C19 holds on this trace (no violation)");
+                0
+            } else if o.stderr.contains("Undefined Behavior") || o.stderr.contains("Data race") {
+                println!("VIOLATION property=C19 replay={path}");
+                println!("  class=undefined-behaviour detail={}", o.stderr.lines().find(|l| l.starts_with("error")).unwrap_or(""));
+                1
+            } else {
+                println!("HARNESS-ERROR miri exited with {:?}: {}", o.code, o.stderr.lines().rev().take(5).collect::<Vec<_>>().join(" | "));
+                2
+            }
+        }
     }
 }
